@@ -27,6 +27,16 @@ cd /verif
 if [ -n "$(git -C /repo status --porcelain --untracked-files=no)" ]; then echo "/repo not clean"; exit 2; fi
 git -C /repo apply $src/patch.diff || exit 2
 verdicts=""
+before=""
+if [ -d /var/tmp/before/harness ]; then
+  # the harness as it was before this round's strengthening (a frozen worktree of /verif), same patched /repo
+  for id in $ids; do
+    case $id in C17|C19) before="$before $id:not-measured"; continue;; esac
+    (cd /var/tmp/before/harness && CARGO_TARGET_DIR=/var/tmp/before-target cargo build --release --offline >/dev/null 2>&1)
+    bout=$(cd /var/tmp/before/harness && /var/tmp/before-target/release/blsful-mc $id quick 2>/dev/null); bcode=$?
+    before="$before $id:exit$bcode"
+  done
+fi
 for id in $ids; do
   out=$(./run.sh $id quick 2>/dev/null); code=$?
   keys=$(echo "$out" | grep -c "^VIOLATION property=$id")
@@ -35,12 +45,14 @@ done
 git -C /repo checkout -- .
 mkdir -p /verif/seeded/$name
 cp $src/patch.diff $src/demo.rs /verif/seeded/$name/
-python3 - "$name" "$src" "$suite" "$without" "$with" "$verdicts" <<'PY'
+BEFORE_VERDICTS="$before" python3 - "$name" "$src" "$suite" "$without" "$with" "$verdicts" <<'PY'
 import json,sys
 name,src,suite,without,withc,verd=sys.argv[1:7]
 m=json.load(open(src+'/meta.json'))
 m['confirmed_by_me']={'repo_suite_with_change':suite,'demo_without_change':without,'demo_with_change':withc,'how':'fresh worktree of /repo HEAD under /var/tmp, cargo test --offline'}
 m['quick_checks_with_change']=verd.strip()
+import os
+m['quick_checks_before_this_rounds_strengthening']=os.environ.get('BEFORE_VERDICTS','')
 json.dump(m,open(f'/verif/seeded/{name}/meta.json','w'),indent=1)
 PY
-echo "| $name | $suite | ${with#test result: } |$verdicts |" | tee -a /verif/seeded/RESULTS.md
+echo "| $name | $suite | ${with#test result: } |$verdicts | before:$before |" | tee -a /verif/seeded/RESULTS.md
